@@ -7,12 +7,12 @@ META = {
     "stubs": ["fopen/fprintf/fclose -> in-memory line tape, fed back to the readers as the in_buffer the real read_file_stdin would build",
               "alloc_line_buffer stand-in (goto-instrument --replace-calls), msa allocation model with small capacities",
               "qsort model, ctype tables, strstr/strnlen models, snprintf text model"],
-    "outside": ["names longer than 3 characters (1..200 claimed by the property: only lengths 1-3 are decided)", "widths other than the listed ones",
+    "outside": ["names longer than 3 characters (1..200 claimed by the property: only lengths 1-3 are decided)", "MSF with a symbolic molecule kind (each kind is its own instance)", "widths other than the listed ones",
                 "cross-format conversion = composition of two single-format instances (not re-run)", "real files (read_file_stdin is checked in C05)"],
     "assumptions": ["rows consist of letters and '-' and contain at least one residue"],
 }
 
-def rt_inst(fmt, ns, aln, nls, sym_names=False, win=None, **kw):
+def rt_inst(fmt, ns, aln, nls, sym_names=False, win=None, kind=None, prefix_names=False, **kw):
     nblocks = (aln + 59) // 60
     lb_lines = 10 + ns + nblocks * (ns + 1) + 2
     out_lines = lb_lines + nblocks + 4 + ns * (nblocks + 1)
@@ -24,10 +24,14 @@ def rt_inst(fmt, ns, aln, nls, sym_names=False, win=None, **kw):
         d["VK_NL3"] = nls[2]
     if sym_names:
         d["VK_SYM_NAMES"] = None
+    if kind is not None:
+        d["VK_KIND"] = kind
+    if prefix_names:
+        d["VK_PREFIX_NAMES"] = None
     if win:
         d["VK_WIN_LO"], d["VK_WIN_HI"] = win
     fname = {1: "fasta", 2: "msf", 3: "clu"}[fmt]
-    return Inst(ob="O1", name="rt_%s_ns%d_aln%d_n%s%s" % (fname, ns, aln, "".join(map(str, nls)), ("_sym" if sym_names else "") + ("_win%d_%d" % win if win else "")), harness="c06_roundtrip.c",
+    return Inst(ob="O1", name="rt_%s_ns%d_aln%d_n%s%s" % (fname, ns, aln, "".join(map(str, nls)), ("_sym" if sym_names else "") + ("_win%d_%d" % win if win else "") + ("" if kind is None else "_k%d" % kind) + ("_pfx" if prefix_names else "")), harness="c06_roundtrip.c",
                 defs=d, srcs=IO_SRCS, models=IO_MODELS, native_srcs=IO_NATIVE,
                 gi_args=["--replace-calls", "alloc_line_buffer:vk_alloc_line_buffer"],
                 flags=["--max-field-sensitivity-array-size", "256"],
@@ -36,22 +40,27 @@ def rt_inst(fmt, ns, aln, nls, sym_names=False, win=None, **kw):
                 funcs=["kalign_write_msa", "detect_alignment_format", {1: "write_msa_fasta", 2: "write_msa_msf", 3: "write_msa_clu"}[fmt],
                        {1: "read_fasta", 2: "read_msf", 3: "read_clu"}[fmt], "null_terminate_sequences"],
                 cost=ns * aln * (3 if fmt == 2 else 1),
-                bound="%s, %d rows x %d columns, name lengths %s%s; %s" % (fname, ns, aln, nls[:ns], " (name characters symbolic)" if sym_names else "",
+                bound="%s, %d rows x %d columns, name lengths %s%s; %s" % (fname, ns, aln, nls[:ns], " (name characters symbolic)" if sym_names else (" (names A/AB/ABC: proper prefixes of each other)" if prefix_names else ""),
                       ("columns %d..%d symbolic, other columns a fixed backdrop (partially symbolic instance)" % (win[0], win[1] - 1)) if win else "all row characters symbolic"),
                 desc="write -> tape -> detect -> read back", **kw)
 
 def instances(tier):
     out = []
     if tier == "quick":
-        tup = [(1, 2, 3), (1, 3, 4), (3, 2, 3), (3, 3, 4), (1, 2, 59), (1, 2, 61), (3, 2, 60), (3, 2, 61)]
+        tup = [(1, 2, 3), (1, 3, 4), (3, 2, 3), (3, 3, 4), (1, 2, 59), (1, 2, 61), (3, 2, 60), (3, 2, 61), (2, 2, 3), (2, 3, 4), (2, 2, 61), (1, 2, 7)]
     else:
-        # MSF read-back: symex of read_msf on the tape did not finish in 150 s at 2x2 (attempted here with a longer cap)
-        tup = [(f, ns, a) for f in (1, 3) for ns in (2, 3) for a in (1, 2, 3, 4, 5)] + [(f, 2, a) for f in (1, 3) for a in (59, 60, 61, 120)] + [(2, 2, 2)]
+        tup = [(f, ns, a) for f in (1, 2, 3) for ns in (2, 3) for a in (1, 2, 3, 4, 5)] + [(f, 2, a) for f in (1, 2, 3) for a in (59, 60, 61, 120)] + [(f, 2, a) for f in (1, 3) for a in (7, 8)]
     for fmt, ns, aln in tup:
         win = (56, min(aln, 63)) if aln >= 59 else None
         if aln >= 119:
             win = (117, min(aln, 123))
-        out.append(rt_inst(fmt, ns, aln, (1, 2, 3) if ns == 3 else (2, 1, 1), win=win))
+        for kind in ((0, 1) if fmt == 2 else (None,)):
+            out.append(rt_inst(fmt, ns, aln, (1, 2, 3) if ns == 3 else (2, 1, 1), win=win, kind=kind))
+    # names that are proper prefixes of each other, shorter first and longer first (readers that match rows by name)
+    for fmt in (1, 2, 3):
+        for nls in ((1, 2, 1), (2, 1, 1)) + (((1, 2, 3), (3, 2, 1)) if tier != "quick" else ()):
+            ns = 3 if nls[2] == 3 or nls[0] == 3 else 2
+            out.append(rt_inst(fmt, ns, 2, nls, prefix_names=True, kind=(1 if fmt == 2 else None)))
     # FASTA with SYMBOLIC name characters from [A-Za-z0-9_.|-] (Clustal with symbolic names runs out of 8 GB: the layout becomes symbolic)
     out.append(rt_inst(1, 2, 2, (2, 1, 1), sym_names=True))
     if tier != "quick":
